@@ -98,7 +98,7 @@ def _canon(s):
 def classify_c05(t, site, mode, got, note):
     """-> list of signatures (without the 'C05 ' prefix)"""
     generic = "%s %s %s -> %s" % (mode, site, rg.skeleton(t), sh.shape_skeleton(got) if got else "unusable(%s)" % note)
-    if got is None and site not in ("return", "event"):
+    if got is None and site not in ("return", "event", "event-let"):
         return [generic]
     if mode == "zod" and site in ("param", "field"):
         flags = set()
@@ -107,7 +107,7 @@ def classify_c05(t, site, mode, got, note):
             return ["zod-schema " + f for f in sorted(flags)]
         return [generic]
     text = ts_text_model(t)
-    if site in ("return", "event"):
+    if site in ("return", "event", "event-let"):
         text = add_types_prefix_model(text)
     d = ts_model_shape(text)
     if d is None and got is None:
